@@ -16,6 +16,7 @@ import (
 	"reflect"
 	"runtime"
 	"runtime/metrics"
+	"sort"
 	"strings"
 	"sync"
 
@@ -73,6 +74,12 @@ func (c *ctx) replacements() {
 	add("gzip-id", 0x3072cfa1)
 	add("rpc_result-id", 0xf35c6d01)
 	add("unregistered-id", 0xdeadbeef)
+	// counts whose product with an item size of 4..32 bytes wraps around 2^32 to something small
+	add("2^28", 0x10000000)
+	add("2^28+1", 0x10000001)
+	add("2^29+1", 0x20000001)
+	add("2^30+1", 0x40000001)
+	add("2^27+1", 0x08000001)
 	// an enum member, and structs of two different interfaces
 	var enumID, a, b uint32
 	for _, e := range c.reg.Entries {
@@ -264,14 +271,17 @@ func (c *ctx) specials() {
 	}
 	w := func() *tlw.W { return &tlw.W{} }
 	pong := w().U32(0x347773c5).I64(1).I64(2).B
-	for _, cnt := range []uint32{0, 1, 2, 0xffffffff, 0x80000000, 0x7fffffff, 3} {
+	for _, cnt := range []uint32{0, 1, 2, 0xffffffff, 0x80000000, 0x7fffffff, 3, 0x10000000, 0x10000001, 0x10000002, 0x20000001, 0x40000001, 0x08000001, 0x70000001} {
 		for _, size := range []uint32{uint32(len(pong)), 0, 0xffffffff, 0x80000000, 0x7fffffff, uint32(len(pong)) + 1, uint32(len(pong)) - 1} {
 			b := w().U32(0x73f1f8dc).U32(cnt).I64(5).I32(1).U32(size).Raw(pong).B
 			c.one(e, fmt.Sprintf("container|count=%s,size=%s", numClass(cnt, 1), numClass(size, uint32(len(pong)))), fmt.Sprintf("container|count=%#x|size=%#x", cnt, size), b, false)
 		}
 	}
 	// vectors with counts that do not match the data, through rpc_result with a hint-free and hinted decoder
-	for _, cnt := range []uint32{0, 1, 2, 3, 0xffffffff, 0x80000000, 0x7fffffff, 0x01000000} {
+	for _, cnt := range []uint32{0, 1, 2, 3, 0xffffffff, 0x80000000, 0x7fffffff, 0x01000000, 0x10000000, 0x10000001, 0x10000002, 0x20000001, 0x20000002, 0x40000001, 0x40000002, 0x08000001, 0x70000001} {
+		// future_salts: a bare vector of 16-byte items
+		b0 := w().U32(0xae500895).I64(9).I32(1).U32(cnt).I32(1).I32(2).I64(3).I32(4).I32(5).I64(6).B
+		c.one(e, "future_salts|count="+numClass(cnt, 2), fmt.Sprintf("future_salts|count=%#x", cnt), b0, false)
 		b := w().U32(0xf35c6d01).I64(9).U32(tlw.Vector).U32(cnt).I64(1).I64(2).B
 		c.one(e, "rpc_result(vector)|count="+numClass(cnt, 2), fmt.Sprintf("rpc_result-vector|count=%#x", cnt), b, false)
 		b2 := w().U32(tlw.Vector).U32(cnt).I64(1).I64(2).B
@@ -291,6 +301,45 @@ func (c *ctx) specials() {
 			c.hinted(e, fmt.Sprintf("nested-vectors|depth=%d|hints=%d", depth, nh), inner, nh)
 		}
 		c.hinted(e, fmt.Sprintf("rpc_result(nested-vectors)|depth=%d|hints=1", depth), w().U32(0xf35c6d01).I64(1).Raw(inner).B, 1)
+	}
+	// every list of 0..2 hints over element types {a registered struct, tl.Object, any, long} x vectors whose items
+	// are vectors again (boxed: the item starts with the vector id), an object followed by a vector, objects only
+	{
+		var obj tl.Object
+		hintTypes := []reflect.Type{reflect.TypeOf([]*objects.RpcResult{}), reflect.SliceOf(reflect.TypeOf(&obj).Elem()), reflect.TypeOf([]any{}), reflect.TypeOf([]int64{}), reflect.TypeOf([]*objects.Pong{})}
+		longs := w().U32(tlw.Vector).U32(2).I64(7).I64(8).B
+		shapes := map[string][]byte{
+			"vec(long,long)":           longs,
+			"vec(vec(long,long))":      w().U32(tlw.Vector).U32(1).Raw(longs).B,
+			"vec(vec,vec)":             w().U32(tlw.Vector).U32(2).Raw(longs).Raw(longs).B,
+			"vec(vec(vec(long,long)))": w().U32(tlw.Vector).U32(1).U32(tlw.Vector).U32(1).Raw(longs).B,
+			"vec(pong,vec)":            w().U32(tlw.Vector).U32(2).Raw(pong).Raw(longs).B,
+			"vec(pong,pong)":           w().U32(tlw.Vector).U32(2).Raw(pong).Raw(pong).B,
+			"vec(empty-vec)":           w().U32(tlw.Vector).U32(1).U32(tlw.Vector).U32(0).B,
+			"rpc_result(vec(vec))":     w().U32(0xf35c6d01).I64(1).U32(tlw.Vector).U32(1).Raw(longs).B,
+		}
+		names := make([]string, 0, len(shapes))
+		for n := range shapes {
+			names = append(names, n)
+		}
+		sort.Strings(names)
+		var lists [][]reflect.Type
+		lists = append(lists, nil)
+		for _, a := range hintTypes {
+			lists = append(lists, []reflect.Type{a})
+			for _, b := range hintTypes {
+				lists = append(lists, []reflect.Type{a, b})
+			}
+		}
+		for _, n := range names {
+			for _, l := range lists {
+				hn := make([]string, len(l))
+				for i, t := range l {
+					hn[i] = t.String()
+				}
+				c.hintedWith(fmt.Sprintf("hint-lists|%s|hints=[%s]", n, strings.Join(hn, ",")), shapes[n], l)
+			}
+		}
 	}
 	// gzip bodies
 	gz := func(p []byte) []byte {
@@ -485,16 +534,20 @@ func firstLines(s string, n int) string {
 
 // hinted decodes data through DecodeUnknownObject with nh hints of type []*objects.RpcResult.
 func (c *ctx) hinted(e *tlx.Entry, id string, data []byte, nh int) {
+	hints := make([]reflect.Type, nh)
+	for i := range hints {
+		hints[i] = reflect.TypeOf([]*objects.RpcResult{})
+	}
+	c.hintedWith(id, data, hints)
+}
+
+func (c *ctx) hintedWith(id string, data []byte, hints []reflect.Type) {
 	c.seq++
 	if c.seq < c.from {
 		return
 	}
 	if c.prog != nil {
 		c.prog.WriteAt([]byte(fmt.Sprintf("%020d %s\n", c.seq, id)), 0)
-	}
-	hints := make([]reflect.Type, nh)
-	for i := range hints {
-		hints[i] = reflect.TypeOf([]*objects.RpcResult{})
 	}
 	var err error
 	p, pm, fr := vr.Try(func() { _, err = tl.DecodeUnknownObject(data, hints...) })
